@@ -164,3 +164,119 @@ def fit_printed(ix: int, iy: int, iw: int, ih: int, has_e: bool) -> str:
         if Fraction(str(y)) + Fraction(str(_w(ih))) <= 95 and eh != Fraction(str(_w(ih))):
             return "fitting height changed"
     return ""
+
+
+# --- fit-to-screen is applied after relativization (writer entry point) ----------------------------------
+def writer_fit(unit: int, has_e: bool, big: bool, dims_hd: bool) -> str:
+    """
+    pre: 0 <= unit < 5
+    post: _ == ""
+    """
+    W, Hh = (1280, 720) if dims_hd else (640, 360)
+    u = _unit(unit)
+    # the same geometry expressed in the chosen unit: origin (10%, 10%) or (50%, 50%); extent 62.5% x 55.56%
+    def h(pct):   # horizontal length of pct percent in unit u
+        return {UnitEnum.PIXEL: pct * W / 100.0, UnitEnum.EM: pct * W / 1600.0, UnitEnum.PERCENT: pct,
+                UnitEnum.CELL: pct * 32 / 100.0, UnitEnum.PT: pct * W / 100.0 * 0.75}[u]
+
+    def v(pct):
+        return {UnitEnum.PIXEL: pct * Hh / 100.0, UnitEnum.EM: pct * Hh / 1600.0, UnitEnum.PERCENT: pct,
+                UnitEnum.CELL: pct * 15 / 100.0, UnitEnum.PT: pct * Hh / 100.0 * 0.75}[u]
+    o = 50.0 if big else 10.0
+    lay = Layout(origin=Point(Size(h(o), u), Size(v(o), u)),
+                 extent=Stretch(Size(h(62.5), u), Size(v(55.0), u)) if has_e else None)
+    out = BaseWriter(relativize=True, video_width=W, video_height=Hh, fit_to_screen=True)._relativize_and_fit_to_screen(lay)
+    if out.extent is None:
+        return "fit_to_screen was not applied (missing extent left missing)"
+    right = out.origin.x.value + out.extent.horizontal.value
+    bottom = out.origin.y.value + out.extent.vertical.value
+    if right > 90.0001 or bottom > 95.0001:
+        return "region leaves the safe area after relativization"
+    if not has_e and (abs(right - 90) > 0.0001 or abs(bottom - 95) > 0.0001):
+        return "missing extent does not reach the safe-area edge"
+    return ""
+
+
+# --- WebVTT cue settings depend on the layout and on this writer's options only ---------------------------
+def vtt_sequence(first_hd: bool, second: int, same_writer_twice: bool) -> str:
+    """
+    pre: 0 <= second < 4
+    post: _ == ""
+    """
+    lay = Layout(origin=Point(Size(64, UnitEnum.PIXEL), Size(36, UnitEnum.PIXEL)), extent=Stretch(Size(320, UnitEnum.PIXEL), Size(72, UnitEnum.PIXEL)))
+    a = WebVTTWriter(video_width=1280 if first_hd else 640, video_height=720 if first_hd else 360)
+    a._convert_positioning(lay)
+    if same_writer_twice:
+        a._convert_positioning(lay)
+    # a second writer (other video size / no size / width only) on an equal layout
+    lay2 = Layout(origin=Point(Size(64, UnitEnum.PIXEL), Size(36, UnitEnum.PIXEL)), extent=Stretch(Size(320, UnitEnum.PIXEL), Size(72, UnitEnum.PIXEL)))
+    if second == 0:
+        b, want = WebVTTWriter(video_width=1920, video_height=800), " align:start position:3.33% line:4.5% size:16.67%"
+    elif second == 1:
+        b, want = WebVTTWriter(video_width=640, video_height=360), " align:start position:10% line:10% size:50%"
+    elif second == 2:
+        b, want = WebVTTWriter(), None
+    else:
+        b, want = WebVTTWriter(video_width=1280), None
+    try:
+        got = b._convert_positioning(lay2)
+    except RelativizationError:
+        return "" if want is None else "spurious RelativizationError"
+    if want is None:
+        return "absolute layout written although a video dimension is missing"
+    return "" if got == want else "cue settings do not correspond to this writer's video size"
+
+
+# --- DFXP writer: absolute layouts at every level come out as percentages ---------------------------------
+def dfxp_levels(level: int, unit: int, fit: bool) -> str:
+    """
+    pre: 0 <= level < 4 and 0 <= unit < 5
+    post: _ == ""
+    """
+    import pycaption.dfxp.base as db
+    from pycaption.dfxp import DFXPWriter
+    from pycaption.base import Caption, CaptionNode, CaptionSet, CaptionList
+    from harness.fakesoup import dfxp_soup
+    from harness.csbuild import StableHash
+    u = _unit(unit)
+    lay = Layout(origin=Point(Size(4, u), Size(2, u)), extent=Stretch(Size(8, u), Size(3, u)))
+    node_l = lay if level == 3 else None
+    nodes = [CaptionNode.create_style(True, {"italics": True}, layout_info=node_l), CaptionNode.create_text("x", layout_info=node_l),
+             CaptionNode.create_style(False, {"italics": True}, layout_info=node_l)]
+    cap = Caption(1000000, 2000000, nodes, layout_info=lay if level == 2 else None)
+    cs = CaptionSet({"en": CaptionList([cap], layout_info=lay if level == 1 else None)}, layout_info=lay if level == 0 else None)
+    old = db.BeautifulSoup
+    db.BeautifulSoup = lambda markup, features=None: dfxp_soup()
+    try:
+        with StableHash():
+            w = DFXPWriter(video_width=640, video_height=360, fit_to_screen=fit)
+            w.write(cs)
+            soup_regions = w.region_creator._dfxp.find("layout").find_all("region")
+    finally:
+        db.BeautifulSoup = old
+    for r in soup_regions:
+        for k in ("tts:origin", "tts:extent", "tts:padding"):
+            val = r.attrs.get(k)
+            if val is None:
+                continue
+            for tok in val.split(" "):
+                if not tok.endswith("%"):
+                    return "absolute length written in a region although relativization is on"
+    return ""
+
+
+def public_dfxp_levels(level, unit, fit):
+    """the same caption set through the real DFXPWriter / bs4 / lxml"""
+    import re
+    from pycaption.dfxp import DFXPWriter
+    from pycaption.base import Caption, CaptionNode, CaptionSet, CaptionList
+    u = _unit(unit)
+    lay = Layout(origin=Point(Size(4, u), Size(2, u)), extent=Stretch(Size(8, u), Size(3, u)))
+    node_l = lay if level == 3 else None
+    nodes = [CaptionNode.create_style(True, {"italics": True}, layout_info=node_l), CaptionNode.create_text("x", layout_info=node_l),
+             CaptionNode.create_style(False, {"italics": True}, layout_info=node_l)]
+    cap = Caption(1000000, 2000000, nodes, layout_info=lay if level == 2 else None)
+    cs = CaptionSet({"en": CaptionList([cap], layout_info=lay if level == 1 else None)}, layout_info=lay if level == 0 else None)
+    out = DFXPWriter(video_width=640, video_height=360, fit_to_screen=fit).write(cs)
+    bad = [m for m in re.findall(r'tts:(?:origin|extent|padding)="([^"]*)"', out) if any(not t.endswith("%") for t in m.split())]
+    return ("absolute lengths written: %r" % bad) if bad else ""
